@@ -31,6 +31,8 @@ ASSUMPTIONS = [
     "that the reported distance is the specification value (minimum over all partial matchings) is C01/C02; here it is "
     "re-confirmed exhaustively for M+N <= 8 only",
 ]
+TRUSTED = ["C01/C02 for `reported distance = minimum over all partial matchings` (here only re-confirmed exhaustively for M+N <= 8)",
+           "the external solvers are NOT trusted by this check: whatever matching they select, the rows built from it are validated per call"]
 EXACT_MODES = ("lattice", "half", "dyadic")
 FILES = ["persim/bottleneck.py", "persim/wasserstein.py"]
 
